@@ -66,6 +66,8 @@ def _seqs(tier):
         if seq[0] not in ('W0', 'W1', 'W2', 'R') or not _ok(seq):
             continue
         out.append(list(seq) + ['V'])
+        if n == 2 and 'V' not in seq and 'Z' not in seq:
+            out.append([seq[0], 'V', seq[1], 'V'])      # the same two operations at different instants
     # two-entry requests (suffix ab) and longer interleavings
     picked = [['Rab', 'W0ab', 'F0', 'V'], ['W0ab', 'W0ab', 'V'], ['W1ab', 'W0ab', 'Aa', 'V']] + ([['Rab', 'W0ab', 'Aa', 'Ab', 'V']] if tier == 'thorough' else []) + [
               ['R', 'W0', 'W0', 'F0', 'V'], ['R', 'W1', 'W0', 'F0', 'V'], ['R', 'W0', 'V', 'F0', 'V']]
@@ -80,6 +82,10 @@ def _seqs(tier):
     if tier == 'thorough':
         picked += [['R', 'R', 'W0', 'W0', 'F0', 'F1', 'V'], ['R', 'W1', 'W1', 'F0', 'Z', 'F0', 'V'],
                    ['Rab', 'W0ab', 'W0ab', 'F0', 'V'], ['Rab', 'W1ab', 'W0ab', 'F0', 'V']]
+    # a request registered at a later instant than a still waiting one (nothing else happens at that instant)
+    for first in (['W0'], ['R', 'W0']):
+        for b in ('W0', 'W1', 'W2'):
+            picked.append(first + ['V', b, 'V'])
     for p in picked:
         if p not in out:
             out.append(p)
@@ -95,7 +101,7 @@ def jobs(tier):
 def bounds_text(tier):
     n = 2 if tier == 'quick' else 3
     return (f'pool a:ca b:cb (symbolic >= 1); every sequence of {n} operations (starting with a registration or a reservation, '
-            f'containing a registration) over register-waiter (log / reserve-inside / register-another callback), add capacity, '
+            f'containing a registration; in the quick tier also with a clock advance between the two) over register-waiter (log / reserve-inside / register-another callback), add capacity, '
             f'reserve, release, complete-instant, advance-clock, followed by a clock advance; plus hand-picked sequences of '
             f'4-8 operations with two-entry requests, two and three waiters, and callbacks that release a reservation or add '
             f'capacity from inside the check ({len(_seqs(tier))} analyses in total); all amounts and durations symbolic')
